@@ -91,7 +91,11 @@ func buildFields(rt reflect.Type, u byte, embedded, omitEmpty bool) (fa []*finfo
 	return shadow(fa)
 }
 
-func buildTagFields(rt reflect.Type, out, pretty, embedded, omitEmpty bool) (fa []*finfo) {
+func buildTagFields(rt reflect.Type, out, pretty, embedded, omitEmpty bool, path ...reflect.Type) (fa []*finfo) {
+	if onPath(rt, path) {
+		return
+	}
+	path = append(path, rt)
 	for i := rt.NumField() - 1; 0 <= i; i-- {
 		f := rt.Field(i)
 		name := []byte(f.Name)
@@ -100,14 +104,14 @@ func buildTagFields(rt reflect.Type, out, pretty, embedded, omitEmpty bool) (fa 
 		}
 		if f.Anonymous && !out {
 			if f.Type.Kind() == reflect.Ptr {
-				for _, fi := range buildTagFields(f.Type.Elem(), out, pretty, embedded, omitEmpty) {
+				for _, fi := range buildTagFields(f.Type.Elem(), out, pretty, embedded, omitEmpty, path...) {
 					fi.index = append([]int{i}, fi.index...)
 					fi.iAppend = skipNilEmbedded(fi.iAppend)
 					fi.Append = fi.iAppend
 					fa = append(fa, fi)
 				}
 			} else {
-				for _, fi := range buildTagFields(f.Type, out, pretty, embedded, omitEmpty) {
+				for _, fi := range buildTagFields(f.Type, out, pretty, embedded, omitEmpty, path...) {
 					fi.index = append([]int{i}, fi.index...)
 					fi.offset += f.Offset
 					fa = append(fa, fi)
@@ -151,7 +155,11 @@ func buildTagFields(rt reflect.Type, out, pretty, embedded, omitEmpty bool) (fa 
 	return
 }
 
-func buildExactFields(rt reflect.Type, out, pretty, embedded, omitEmpty bool) (fa []*finfo) {
+func buildExactFields(rt reflect.Type, out, pretty, embedded, omitEmpty bool, path ...reflect.Type) (fa []*finfo) {
+	if onPath(rt, path) {
+		return
+	}
+	path = append(path, rt)
 	for i := rt.NumField() - 1; 0 <= i; i-- {
 		f := rt.Field(i)
 		name := []byte(f.Name)
@@ -160,14 +168,14 @@ func buildExactFields(rt reflect.Type, out, pretty, embedded, omitEmpty bool) (f
 		}
 		if f.Anonymous && !out {
 			if f.Type.Kind() == reflect.Ptr {
-				for _, fi := range buildExactFields(f.Type.Elem(), out, pretty, embedded, omitEmpty) {
+				for _, fi := range buildExactFields(f.Type.Elem(), out, pretty, embedded, omitEmpty, path...) {
 					fi.index = append([]int{i}, fi.index...)
 					fi.iAppend = skipNilEmbedded(fi.iAppend)
 					fi.Append = fi.iAppend
 					fa = append(fa, fi)
 				}
 			} else {
-				for _, fi := range buildExactFields(f.Type, out, pretty, embedded, omitEmpty) {
+				for _, fi := range buildExactFields(f.Type, out, pretty, embedded, omitEmpty, path...) {
 					fi.index = append([]int{i}, fi.index...)
 					fi.offset += f.Offset
 					fa = append(fa, fi)
@@ -180,7 +188,11 @@ func buildExactFields(rt reflect.Type, out, pretty, embedded, omitEmpty bool) (f
 	return
 }
 
-func buildLowFields(rt reflect.Type, out, pretty, embedded, omitEmpty bool) (fa []*finfo) {
+func buildLowFields(rt reflect.Type, out, pretty, embedded, omitEmpty bool, path ...reflect.Type) (fa []*finfo) {
+	if onPath(rt, path) {
+		return
+	}
+	path = append(path, rt)
 	for i := rt.NumField() - 1; 0 <= i; i-- {
 		f := rt.Field(i)
 		name := []byte(f.Name)
@@ -189,14 +201,14 @@ func buildLowFields(rt reflect.Type, out, pretty, embedded, omitEmpty bool) (fa 
 		}
 		if f.Anonymous && !out {
 			if f.Type.Kind() == reflect.Ptr {
-				for _, fi := range buildLowFields(f.Type.Elem(), out, pretty, embedded, omitEmpty) {
+				for _, fi := range buildLowFields(f.Type.Elem(), out, pretty, embedded, omitEmpty, path...) {
 					fi.index = append([]int{i}, fi.index...)
 					fi.iAppend = skipNilEmbedded(fi.iAppend)
 					fi.Append = fi.iAppend
 					fa = append(fa, fi)
 				}
 			} else {
-				for _, fi := range buildLowFields(f.Type, out, pretty, embedded, omitEmpty) {
+				for _, fi := range buildLowFields(f.Type, out, pretty, embedded, omitEmpty, path...) {
 					fi.index = append([]int{i}, fi.index...)
 					fi.offset += f.Offset
 					fa = append(fa, fi)
@@ -237,4 +249,15 @@ func shadow(fa []*finfo) []*finfo {
 		}
 	}
 	return out
+}
+
+// onPath reports whether rt is one of the types whose fields are being collected right now: a struct that embeds a
+// pointer to itself (directly or through other structs) is entered once.
+func onPath(rt reflect.Type, path []reflect.Type) bool {
+	for _, t := range path {
+		if t == rt {
+			return true
+		}
+	}
+	return false
 }
